@@ -80,7 +80,7 @@ fn run_case<A: Abc, C: PositiveLength, P: Score<f32, A, C>>(
     let (a, b) = case.range.unwrap_or((0, r));
     let api_names = ["score", "score_into", "score_rows_into", "ScoringMatrix::score"];
     let api = if case.range.is_some() { 2 } else if case.api == 3 && via_pssm.is_none() { 0 } else { case.api };
-    let res = guarded(|| -> (usize, usize, Vec<Vec<Value>>, Vec<Value>, Vec<Value>) {
+    let res = guarded(|| -> (usize, usize, Vec<Vec<Value>>, Vec<Value>, Vec<Value>, bool) {
         let owned;
         let s: &StripedScores<f32, C> = match api {
             0 => { owned = pli.score(&pssm, &seq); &owned }
@@ -96,7 +96,9 @@ fn run_case<A: Abc, C: PositiveLength, P: Score<f32, A, C>>(
                 idx.push(json!([i, grid(s[i], GS)]));
             }
         }
-        (s.matrix().rows(), s.max_index(), cells_of(s), un, idx)
+        // the same values read from the back through the exact-size, double-ended iterator
+        let back_ok = api == 2 || { let mut b: Vec<Value> = s.iter().rev().map(|&x| grid(x, GS)).collect(); b.reverse(); b == un && s.iter().len() == un.len() };
+        (s.matrix().rows(), s.max_index(), cells_of(s), un, idx, back_ok)
     });
     rec.reset();
     let base = json!({"ev":"score","be":be,"arm":arm_name(arm),"abc":A::NAME,"C":C::USIZE,"K":A::KK,"api":api_names[api],
@@ -104,8 +106,9 @@ fn run_case<A: Abc, C: PositiveLength, P: Score<f32, A, C>>(
     let mut o = base;
     let mm = o.as_object_mut().unwrap();
     match res {
-        Ok((nrows, max_index, cells, un, idx)) => {
+        Ok((nrows, max_index, cells, un, idx, back_ok)) => {
             mm.insert("ret".into(), json!("ok"));
+            mm.insert("back_ok".into(), json!(back_ok));
             mm.insert("nrows".into(), json!(nrows));
             mm.insert("max_index".into(), json!(max_index));
             mm.insert("cells".into(), json!(cells));
@@ -201,7 +204,7 @@ where
     let ranks = random_ranks::<A>(rng, l, 0.01);
     let cells = random_pssm::<A>(rng, m, 0.0, true, 20);
     let pssm = build_pssm::<A>(&cells);
-    let arm = [None, Some(Arm::Avx2), None, Some(Arm::Sse2)][via % 4];
+    let arm = [None, Some(Arm::Avx2), None, Some(Arm::Sse2), Some(Arm::Generic), Some(Arm::Sse2)][via % 6];
     force(arm);
     let res = guarded(|| {
         let mut seq: StripedSequence<A, U32> = if via % 2 == 0 {
@@ -327,6 +330,12 @@ pub fn record(rec: &mut Recorder, seed: u64, thorough: bool) {
         big::<Protein, U32, _>(rec, &Pipeline::<Protein, _>::avx2().unwrap(), "avx2", None, &mut r);
         big::<Dna, U32, _>(rec, &Pipeline::<Dna, _>::sse2().unwrap(), "sse2", None, &mut r);
         big::<Dna, U32, _>(rec, &Pipeline::<Dna, _>::generic(), "generic", None, &mut r);
+    }
+    // ... and the same route for the shortest texts (empty, shorter than the motif, exactly as long), every arm
+    for (i, l) in [0usize, 0, 1, 1, 2, 3, 5, 8, 8, 31, 32, 33].into_iter().enumerate() {
+        user_path::<Dna>(rec, &mut r, l, i);
+        user_path::<Dna>(rec, &mut r, l, i + 3);
+        user_path::<Protein>(rec, &mut r, l, i + 1);
     }
     let longs: Vec<usize> = if thorough { vec![1024, 1025, 1055, 1056, 1088, 1119, 1500, 2047, 2048, 2079, 2080, 3009, 3072, 4100] } else { vec![1024, 1056, 2048, 3009] };
     for (i, &l) in longs.iter().enumerate() {
